@@ -107,6 +107,7 @@ async fn exchange(role: Role, seed: Option<u64>, rep: &mut Report) -> Result<(Ou
         v.sort();
         (a, p, v)
     });
+    let mut peer_lost = false;
     if ins {
         // after establishment: unknown frames on the control stream, unknown uni streams
         let n = rng.usize(1, 3);
@@ -114,7 +115,14 @@ async fn exchange(role: Role, seed: Option<u64>, rep: &mut Report) -> Result<(Ou
         let mut ctrl = live.peer.keep_send.lock().unwrap().remove(0);
         let w = ctrl.write_all(&extra).await;
         live.peer.keep_send.lock().unwrap().insert(0, ctrl);
-        w.map_err(|e| e.to_string())?;
+        // a write that fails because the endpoint closed the connection is an observation (the
+        // insertion changed the outcome), not a harness problem: go on and let the probes say so
+        if let Err(e) = w {
+            if !matches!(e, quinn::WriteError::ConnectionLost(_)) {
+                return Err(e.to_string());
+            }
+            peer_lost = true;
+        }
         for _ in 0..rng.usize(1, 3) {
             let ty = loop {
                 let (t, _) = unknown_type(&mut rng, false);
@@ -127,11 +135,16 @@ async fn exchange(role: Role, seed: Option<u64>, rep: &mut Report) -> Result<(Ou
             shapes.push(format!("uni-stream:{}/{pc}", if h3::is_grease(ty) { "grease" } else { "unknown" }));
             let mut b = rv::enc(ty);
             b.extend(p);
-            let mut s = live.peer.open_uni(&b).await?;
-            if rng.chance(1, 2) {
-                let _ = s.finish();
+            match live.peer.open_uni(&b).await {
+                Ok(mut s) => {
+                    if rng.chance(1, 2) {
+                        let _ = s.finish();
+                    }
+                    live.peer.keep_s(s);
+                }
+                Err(e) if e.contains("closed by peer") || e.contains("connection lost") || peer_lost => peer_lost = true,
+                Err(e) => return Err(e),
             }
-            live.peer.keep_s(s);
         }
     }
     let alive = scen::probe_alive(&live, 13, Duration::from_secs(3)).await.is_ok();
@@ -162,7 +175,14 @@ async fn exchange(role: Role, seed: Option<u64>, rep: &mut Report) -> Result<(Ou
     }
     bytes.extend(h3::frame(h3::FRAME_DATA, &capsule::close(CODE, REASON)));
     let mut s = live.sess_send.take().ok_or("no session stream")?;
-    s.write_all(&bytes).await.map_err(|e| e.to_string())?;
+    match s.write_all(&bytes).await {
+        Ok(()) => {}
+        Err(quinn::WriteError::ConnectionLost(_)) if ins => {}
+        Err(e) if peer_lost => {
+            let _ = e;
+        }
+        Err(e) => return Err(e.to_string()),
+    }
     live.peer.keep_s(s);
     let close = match within(Duration::from_secs(3), async {
         loop {
